@@ -72,6 +72,7 @@ type Profile struct {
 	PRange        float64
 	PConnHdr      float64 // hop-by-hop material
 	PCCSpell      float64 // alternative spellings of Cache-Control
+	PRepeat       float64 // a directive occurs twice in a Cache-Control field
 	PClientCond   float64 // client-supplied conditional headers
 	PAdvVary      float64 // adversarial selecting header values
 	PLongURL      float64 // all URLs of the case get a long last path segment (keys of 150-300 bytes: file-name limits of the file-system backend)
@@ -86,7 +87,7 @@ var baseProfile = Profile{
 	Name: "mix", NReq: [2]int{3, 8}, PUnsafe: 0.12, PReqCC: 0.35, PVary: 0.3, PDate: 0.35, PSkew: 0.3,
 	PAge: 0.25, PBigNum: 0.05, PValidators: 0.6, PSWR: 0.2, PSIE: 0.15, PNoCache: 0.1, PMustReval: 0.15,
 	PHeuristic: 0.2, PErrReply: 0.1, PBodyFail: 0.0, PSpelling: 0.3, PLocation: 0.3, POnlyIfCached: 0.1,
-	PRange: 0.03, PConnHdr: 0.1, PCCSpell: 0.15,
+	PRange: 0.03, PConnHdr: 0.1, PCCSpell: 0.15, PRepeat: 0.06,
 	Statuses:    []int{200, 200, 200, 200, 200, 200, 203, 204, 301, 302, 307, 308, 404, 410, 500, 503, 206},
 	Methods:     []string{"POST", "PUT", "DELETE", "PATCH", "HEAD", "OPTIONS", "PROPFIND", "MKCOL", "FOO"},
 	URLs:        2,
@@ -172,58 +173,54 @@ func (d directive) String() string {
 // elements, token or quoted-string arguments, extension directives, several field lines.
 func (g *G) spellCC(ds []directive) []string {
 	ds = append([]directive(nil), ds...)
+	orig := append([]directive(nil), ds...)
 	g.r.Shuffle(len(ds), func(i, j int) { ds[i], ds[j] = ds[j], ds[i] })
-	var elems []string
+	// a directive that occurs more than once keeps the relative order of its occurrences (which one comes last, or
+	// first, is part of the meaning); everything else may move
+	type elem struct{ text, name string }
+	var elems []elem
 	for _, d := range ds {
 		if g.chance(0.25) {
 			// extension directives, some with quoted-pairs: an escaped quote does not end the argument, an escaped
 			// backslash does not escape the quote after it
-			elems = append(elems, g.pick("foo", "bar=1", `ext="a,b"`, "x-y=z", `community="UCI"`, `ext="a\"b"`, `ext="a\", no-store, x=\"b"`, `q="\\"`, `ext="\"", y=",no-cache,"`))
+			elems = append(elems, elem{g.pick("foo", "bar=1", `ext="a,b"`, "x-y=z", `community="UCI"`, `ext="a\"b"`, `ext="a\", no-store, x=\"b"`, `q="\\"`, `ext="\"", y=",no-cache,"`), ""})
 		}
-		name := g.spellName(d.name)
-		if !d.has {
-			elems = append(elems, name)
-			continue
-		}
-		arg := d.arg
-		if strings.HasPrefix(arg, `"`) && len(arg) > 2 && g.chance(0.3) {
-			// a quoted argument whose content is a token may be written as the token (a one-member field list, a number)
-			inner := arg[1 : len(arg)-1]
-			tok := true
-			for i := 0; i < len(inner); i++ {
-				ch := inner[i]
-				if !(ch >= 'a' && ch <= 'z' || ch >= 'A' && ch <= 'Z' || ch >= '0' && ch <= '9' || ch == '-' || ch == '_' || ch == '.') {
-					tok = false
-				}
-			}
-			if tok {
-				arg = inner
-			}
-		}
-		if !strings.HasPrefix(arg, `"`) {
-			switch g.intn(4) {
-			case 0:
-				arg = `"` + arg + `"`
-			case 1:
-				if len(arg) > 0 {
-					arg = `"` + arg[:len(arg)-1] + `\` + arg[len(arg)-1:] + `"`
-				}
-			}
-		}
-		elems = append(elems, name+"="+arg)
+		elems = append(elems, elem{"", d.name})
 	}
 	nlines := 1 + g.intn(3)
-	lines := make([]string, nlines)
-	for _, e := range elems {
-		i := g.intn(nlines)
-		sep := g.pick(", ", ",", " , ", ",,", ", ,", ",\t")
-		if lines[i] == "" {
-			if g.chance(0.15) {
-				lines[i] = g.pick(",", " ,", ", ")
+	perLine := make([][]int, nlines)
+	for i := range elems {
+		l := g.intn(nlines)
+		perLine[l] = append(perLine[l], i)
+	}
+	// the occurrences of one name, in their original order, go to the slots that name occupies, in reading order
+	queue := map[string][]directive{}
+	for _, d := range orig {
+		queue[d.name] = append(queue[d.name], d)
+	}
+	for _, idxs := range perLine {
+		for _, i := range idxs {
+			if elems[i].name == "" {
+				continue
 			}
-			lines[i] += e
-		} else {
-			lines[i] += sep + e
+			d := queue[elems[i].name][0]
+			queue[elems[i].name] = queue[elems[i].name][1:]
+			elems[i].text = g.spellDirective(d)
+		}
+	}
+	lines := make([]string, nlines)
+	for l, idxs := range perLine {
+		for _, i := range idxs {
+			e := elems[i].text
+			sep := g.pick(", ", ",", " , ", ",,", ", ,", ",\t")
+			if lines[l] == "" {
+				if g.chance(0.15) {
+					lines[l] = g.pick(",", " ,", ", ")
+				}
+				lines[l] += e
+			} else {
+				lines[l] += sep + e
+			}
 		}
 	}
 	var out []string
@@ -245,6 +242,74 @@ func (g *G) spellCC(ds []directive) []string {
 		out = append(out[:i:i], append([]string{""}, out[i:]...)...)
 	}
 	return out
+}
+
+// spellDirective: one directive in one of its spellings (letter case of the name, token or quoted-string argument)
+func (g *G) spellDirective(d directive) string {
+	name := g.spellName(d.name)
+	if !d.has {
+		return name
+	}
+	arg := d.arg
+	if strings.HasPrefix(arg, `"`) && len(arg) > 2 && g.chance(0.3) {
+		// a quoted argument whose content is a token may be written as the token (a one-member field list, a number)
+		inner := arg[1 : len(arg)-1]
+		tok := true
+		for i := 0; i < len(inner); i++ {
+			ch := inner[i]
+			if !(ch >= 'a' && ch <= 'z' || ch >= 'A' && ch <= 'Z' || ch >= '0' && ch <= '9' || ch == '-' || ch == '_' || ch == '.') {
+				tok = false
+			}
+		}
+		if tok {
+			arg = inner
+		}
+	}
+	if !strings.HasPrefix(arg, `"`) {
+		switch g.intn(4) {
+		case 0:
+			arg = `"` + arg + `"`
+		case 1:
+			if len(arg) > 0 {
+				arg = `"` + arg[:len(arg)-1] + `\` + arg[len(arg)-1:] + `"`
+			}
+		}
+	}
+	return name + "=" + arg
+}
+
+// repeatDirectives: with probability p one directive of the list occurs a second time, somewhere else in the list —
+// with the same argument (which changes nothing) or with another one (a later occurrence replaces an earlier one;
+// the occurrences of no-cache add up: RFC 9111 §5.2.2.4) — or, when the list has no no-cache yet, both of its forms join it
+func (g *G) repeatDirectives(p float64, ds []directive, response bool) []directive {
+	if len(ds) == 0 || !g.chance(p) {
+		return ds
+	}
+	insert := func(d directive) {
+		i := g.intn(len(ds) + 1)
+		ds = append(ds[:i:i], append([]directive{d}, ds[i:]...)...)
+	}
+	d := ds[g.intn(len(ds))]
+	switch {
+	case d.name == "no-cache" && response:
+		switch {
+		case !d.has:
+			insert(directive{"no-cache", g.pick(`"X-Secret"`, `"Set-Cookie"`, `"ETag"`), true})
+		case g.chance(0.5):
+			insert(directive{"no-cache", "", false})
+		default:
+			insert(directive{"no-cache", g.pick(`"X-Other"`, `"Set-Cookie"`, `"X-Secret"`), true})
+		}
+	case d.has && g.chance(0.6):
+		other := d
+		if _, err := strconv.Atoi(d.arg); err == nil {
+			other.arg = strconv.Itoa(g.seconds())
+		}
+		insert(other)
+	default:
+		insert(d)
+	}
+	return ds
 }
 
 // ccHeader renders a directive list canonically or, with probability PCCSpell, respelled.
@@ -321,7 +386,7 @@ func (g *G) respDirectives(p *Profile) []directive {
 	if g.chance(0.1) {
 		ds = append(ds, directive{"private", "", false})
 	}
-	return ds
+	return g.repeatDirectives(p.PRepeat, ds, true)
 }
 
 func (g *G) reqDirectives(p *Profile) []directive {
@@ -361,7 +426,7 @@ func (g *G) reqDirectives(p *Profile) []directive {
 	if g.chance(p.POnlyIfCached) {
 		ds = append(ds, directive{"only-if-cached", "", false})
 	}
-	return ds
+	return g.repeatDirectives(p.PRepeat, ds, false)
 }
 
 var varyFields = []string{"Accept-Encoding", "X-Custom", "Accept-Language", "User-Agent"}
@@ -688,12 +753,14 @@ func init() {
 		p.PValidators, p.PSWR, p.PSIE, p.PErrReply, p.POnlyIfCached, p.URLs = 0.75, 0.3, 0.3, 0.2, 0.15, 1
 		p.PSpelling, p.PLocation, p.PConnHdr, p.PRange = 0.1, 0.0, 0.0, 0.0
 		p.PClientCond = 0.12
+		p.PRepeat = 0.2
 	})
 	profiles["spell"] = derive("spell", func(p *Profile) {
 		p.NReq = [2]int{3, 6}
 		p.PCCSpell, p.PReqCC, p.PBigNum, p.URLs, p.PUnsafe = 0.9, 0.6, 0.2, 1, 0.02
 		p.PNoCache, p.PMustReval, p.PSWR, p.PSIE = 0.25, 0.3, 0.3, 0.25
 		p.PLocation, p.PConnHdr, p.PRange = 0.0, 0.0, 0.0
+		p.PRepeat = 0.25
 	})
 	profiles["inval"] = derive("inval", func(p *Profile) {
 		p.NReq = [2]int{4, 8}
@@ -757,6 +824,7 @@ func init() {
 		p.PSWR, p.PSIE, p.URLs, p.PVary = 0.3, 0.2, 1, 0.2
 		p.PLocation, p.PConnHdr, p.PRange = 0.0, 0.0, 0.0
 		p.PCCSpell = 0.4
+		p.PRepeat = 0.25
 	})
 }
 
